@@ -1,3 +1,5 @@
+//go:build verif
+
 // Package c07 checks property C07: authored transactions conserve value and pay
 // at least the requested fee rate.
 //
@@ -23,6 +25,7 @@ import (
 	"github.com/btcsuite/btcd/chaincfg/chainhash"
 	"github.com/btcsuite/btcd/txscript"
 	"github.com/btcsuite/btcd/wire"
+	rwallet "github.com/btcsuite/btcwallet/wallet"
 	"github.com/btcsuite/btcwallet/wallet/txauthor"
 	"github.com/btcsuite/btcwallet/wallet/txrules"
 	"github.com/btcsuite/btcwallet/wallet/txsizes"
@@ -202,27 +205,26 @@ type coin struct {
 	val int64
 }
 
-// newSource mirrors wallet.makeInputSource: coins are handed out in the fixed
-// order of the sequence, one more each time the running total is below the
-// target; the accumulated prefix is returned.
+// newSource is the wallet's own input source of automatic coin selection
+// (wallet.makeInputSource through the build-tagged hook), over the coins in
+// the fixed order of the sequence; the targets it is asked for are recorded.
 func newSource(w *wallet, coins []coin, calls *[]int64) txauthor.InputSource {
-	next := 0
-	var total btcutil.Amount
-	ins := make([]*wire.TxIn, 0, len(coins))
-	vals := make([]btcutil.Amount, 0, len(coins))
-	scripts := make([][]byte, 0, len(coins))
+	el := make([]rwallet.Coin, len(coins))
+	for i, c := range coins {
+		el[i] = rwallet.Coin{
+			TxOut:    wire.TxOut{Value: c.val, PkScript: w.pk[c.typ]},
+			OutPoint: coinOutPoint(i),
+		}
+	}
+	src := rwallet.VerifMakeInputSource(el)
 	return func(target btcutil.Amount) (btcutil.Amount, []*wire.TxIn, []btcutil.Amount, [][]byte, error) {
 		*calls = append(*calls, int64(target))
-		for total < target && next < len(coins) {
-			c := coins[next]
-			op := coinOutPoint(next)
-			next++
-			ins = append(ins, wire.NewTxIn(&op, nil, nil))
-			total += btcutil.Amount(c.val)
-			vals = append(vals, btcutil.Amount(c.val))
-			scripts = append(scripts, w.pk[c.typ])
+		if len(*calls) > len(coins)+2 {
+			// every new request follows a fee increase, which needs a new input: more
+			// requests than coins means author and source no longer settle
+			return 0, nil, nil, nil, fmt.Errorf("the author asked the input source %d times for %d coins (targets %v): the selection does not settle", len(*calls), len(coins), *calls)
 		}
-		return total, ins, vals, scripts, nil
+		return src(target)
 	}
 }
 
@@ -1034,7 +1036,7 @@ func Run(args []string) {
 		"'worst-case size estimate' in the upper fee bound is txsizes.EstimateVirtualSize for the selected inputs, the requested outputs and a change output of the change script's size (the estimate always includes the change output, also when the change was dropped as dust); the dust threshold is that of the change script at 1000 sat/kvB",
 		"'required fee' in the insufficient-funds clause is the rate applied to the harness's own worst-case signed size WITH a change output (72-byte DER + sighash byte + 33-byte key for ECDSA inputs, 64-byte signature for taproot key spends) plus a slack of ceil((witness inputs + taproot inputs + 3)/4) vB for estimator conventions, over every prefix of the offered coin order",
 		"clause (g): txsizes.EstimateVirtualSize must not exceed own worst case + slack, for every prefix of every coin sequence, every requested output list and every change type (and without change); an estimate below the own (73-byte ECDSA signature) worst case is only counted (estimator_below_own_worst_case_cases), not a violation: the property bounds the fee by the real signed size (clause c)",
-		"coins are offered in a fixed order by an input source with the contract of wallet.makeInputSource; keys are compressed; taproot coins are BIP86 key-spend",
+		"coins are offered in a fixed order by the wallet's own input source (wallet.makeInputSource through a build-tagged hook); keys are compressed; taproot coins are BIP86 key-spend",
 	}
 	cov := ev.Coverage{
 		"evaluations":         tot.Evaluations,
